@@ -92,17 +92,22 @@ def fc(node):
 
 def ga(node):
     """Generator member: yields between the child groups.  The first yield is the value of an
-    unpacking assignment; with node["swallow"] a close()/drop at a yield is absorbed and the
-    generator returns normally instead of letting GeneratorExit propagate."""
+    unpacking assignment and absorbs a thrown ValueError (it yields again); with node["swallow"]
+    a close()/drop at a yield is absorbed and the generator returns normally instead of letting
+    GeneratorExit propagate."""
     u = node["u0"]
     w = node["w0"]
     _kids(node["pre"])
-    try:
-        p, q = (yield u) or (0, 0)
-    except GeneratorExit:
-        if node.get("swallow"):
-            return None
-        raise
+    while True:
+        try:
+            p, q = (yield u) or (0, 0)
+            break
+        except ValueError:
+            continue  # a ValueError thrown in at this yield is absorbed: the value is yielded again
+        except GeneratorExit:
+            if node.get("swallow"):
+                return None
+            raise
     if node["ru"] is not None:
         u = node["ru"]
     if node["rw"] is not None:
